@@ -47,15 +47,41 @@ def build_tools():
             raise SystemExit(f"building tools/{t} failed:\n{e}")
 
 
-def regenerate():
-    """Regenerate Gen/*.lean from /repo. Returns a list of broken-obligation messages."""
+def gen_deps(modules):
+    """The regenerated modules (Gen.*) that the given Lean modules import, transitively."""
+    seen, todo, gens = set(), list(modules), set()
+    while todo:
+        m = todo.pop()
+        if m in seen:
+            continue
+        seen.add(m)
+        if m.startswith("GitSizer.Gen."):
+            gens.add(m.split(".")[-1] + ".lean")
+            continue
+        path = os.path.join(LEAN, *m.split(".")) + ".lean"
+        if not os.path.exists(path):
+            continue
+        for line in open(path):
+            mm = re.match(r"^import\s+(GitSizer\.\S+)", line)
+            if mm:
+                todo.append(mm.group(1))
+    return gens
+
+
+def regenerate(needed=None):
+    """Regenerate Gen/*.lean from /repo. Returns a list of broken-obligation messages (only for the
+    regenerated files in `needed`, if given: a translator failing on a file that the property's
+    theorems do not use is not this property's broken obligation)."""
     broken = []
     tmp = tempfile.mkdtemp(prefix="gen", dir=BUILD)
     try:
         for tool, files in (("go2lean", ["Counts.lean", "Sizes.lean"]), ("gofacts", ["Tables.lean", "Cmds.lean"]), ("gostr2lean", ["Strs.lean"])):
             rc, o, e = run([os.path.join(BIN, tool), REPO, tmp])
             if rc != 0:
-                broken.append(f"{tool} cannot translate the current source: {e.strip().splitlines()[-1] if e.strip() else 'failed'}")
+                if needed is None or any(f in needed for f in files):
+                    broken.append(f"{tool} cannot translate the current source: {e.strip().splitlines()[-1] if e.strip() else 'failed'}")
+                else:
+                    log(f"note: {tool} cannot translate the current source (not used by this property's theorems; baseline copy kept for the driver)")
                 # fall back to the committed baseline so that the search can still run
                 for f in files:
                     shutil.copy(os.path.join(LEAN, "gen_baseline", f), os.path.join(tmp, f))
@@ -335,7 +361,7 @@ def main():
         sys.exit(1 if bad or rp.get("broken") else 0)
 
     broken = []          # broken proof obligations / correspondences (strings)
-    broken += regenerate()
+    broken += regenerate(gen_deps(cfg["modules"]))
     broken += build_driver_model()
     obligations = discharged = 0
     axioms, names = [], []
@@ -346,6 +372,20 @@ def main():
                 rc, o, e = run(["lake", "env", "leanchecker", m], cwd=LEAN, timeout=3000)
                 if rc != 0:
                     broken.append(f"leanchecker rejected {m}: {first_error(o + e)}")
+    # The model driver and its judges read the regenerated tables (chrome strings, prefix tables,
+    # constants) by position. Theorems pin their shape; when ANY theorem over the regenerated modules
+    # no longer holds (this property's or another's), the tables may no longer mean what the judges
+    # assume, so the search is run with the pinned baseline tables (= the shape the specification was
+    # written against) instead of producing expectations from misread data.
+    judge_tables = "regenerated"
+    if not args.no_prove:
+        rc_all, out_all = lake_build(["GitSizer"])
+        if rc_all != 0 or broken:
+            gen_fallback(["Counts.lean", "Sizes.lean", "Tables.lean", "Cmds.lean", "Strs.lean"])
+            rc2, out2 = lake_build(["gsmodel"])
+            if rc2 != 0:
+                raise SystemExit("gsmodel does not build with baseline Gen:\n" + out2[-3000:])
+            judge_tables = "baseline (a theorem over the regenerated modules failed: " + first_error(out_all)[:200] + ")"
     go_errs = build_go()
     broken += go_errs
 
@@ -469,7 +509,7 @@ def main():
             "trusted_base": [
                 "Lean 4.33.0 kernel" + (" (re-checked by leanchecker)" if tier == "thorough" else ""),
                 "axioms used by the theorems of this property: " + (", ".join(axioms) if axioms else "none"),
-                "tools/go2lean + tools/gofacts (source -> Lean translation of counts.go, sizes.go arithmetic and tables)",
+                "tools/go2lean + tools/gofacts + tools/gostr2lean (source -> Lean translation of counts.go, sizes.go arithmetic, tables, call sites, string functions)",
                 "correspondence driver (differential testing of the hand-written model against the Go code)",
             ] + cfg.get("trusted", []),
             "theorems": names,
@@ -481,6 +521,7 @@ def main():
             "cases_meeting_whole_run_theorem_hypotheses": thm_instances,
             "violations_of_other_properties_seen": len(other_prop_viols),
             "broken": broken, "model_impl_disagreements": len(diffs), "widened_search_cases": widened,
+            "judge_tables": judge_tables,
         },
         "assumptions": cfg.get("assumptions", []),
         "wall_s": round(time.time() - t0, 2), "violations": violations,
